@@ -560,10 +560,16 @@ def _run_api(ft, case):
             if isinstance(e, (KeyboardInterrupt, SystemExit)):
                 raise
             err = H.err_class(e)
+        # observation = what is in the file plus what is still buffered for it (so that the moment of a
+        # flush, which the property declares unobservable, is not compared)
         files = {}
         for r, t in case["keys"]:
             p = f"{prefix}-{r}-{t}.csv"
-            files[_kstr([r, t])] = _parse_csv(p) if os.path.exists(p) else None
+            lines = _parse_csv(p) if os.path.exists(p) else None
+            slot = (M.traces or {}).get(r, {}).get(t) if M.isCollecting() else None
+            if slot is not None and slot[0] is not None:
+                lines = (lines or []) + _mem_lines(slot[0])
+            files[_kstr([r, t])] = lines
         cons = {_kstr(k): consumed.get(_kstr(k), []) for k in case["keys"]}
         _force_end(ft)
         for f in glob.glob(prefix + "-*.csv"):
